@@ -32,7 +32,8 @@ LEVEL_TEXT = (
     'conditions for every path of the anchored functions; it does not '
     'rebuild objects.')
 LEVEL_NOTE = 'Trusted: Python class semantics; memoize decorators cache per argument.'
-TECHNIQUE = 'statement-order, dominating-guard and format-literal agreement checks (ast)'
+TECHNIQUE = ('statement-order, dominating-guard (with entailment) and '
+             'format-literal agreement checks (ast)')
 
 
 def rule_r1(prog, res):
